@@ -90,6 +90,8 @@ def run_batch(prop, tier, runs=None, budget=None, workers=None, quiet=False,
       eng.merge_agg(agg, part)
     waves += 1
   wall = time.time() - t0
+  if hasattr(eng, "sanity"):
+    eng.sanity(agg)
   # ---- violations -> known findings / replay files
   known_hits = {}
   new_viol = []
